@@ -72,6 +72,8 @@ def run(F, R):
     z11_rtc(F, R, M, roles)
     z12_mount_tag(F, R)
     z13_stream_ids(F, R)
+    if GPU in F.adts:
+        z14_gpu_serialise(F, R, M, roles)
 
 
 def z1_encodings(F, R):
@@ -302,6 +304,33 @@ def z3_z4_gpu(F, R, M, roles):
             okc = bool(copies) and all(sg.always_before(copies, t_) for t_ in tr)
             R.check(okc, 'Z3', '%s:image-copied-before-transfer' % b['name'], fn_site(F, b['id']), 'the caller\'s image is copied into the backing before the transfer',
                     '%s transfers the backing to the host without first copying the caller\'s image into it: the device shows the zeroed allocation' % b['name'])
+        # an existing backing is torn down exactly on the paths where one exists: on a successful path on which the stored region
+        # is Some, detach + unref precede the new attach (otherwise the overwrite frees a region the device still has attached)
+        if okpaths is not None and 'resource_detach_backing' in helpers.values() and b['name'] == 'change_resolution':
+            dmaf_ = [f_['name'] for f_ in F.adts[GPU]['variants'][0]['fields'] if M.dma_adt in f_['mentions']]
+            wrongp = None
+            for p in okpaths:
+                has = None
+                for c_ in p.conds:
+                    d = c_[0]
+                    truth = (c_[1][0] == 'notin' and 0 in c_[1][1]) or (c_[1][0] == 'in' and 0 not in c_[1][1])
+                    onf = any(x[0] == 'loc' and any(pp[0] == 'f' and pp[1] in dmaf_ and len(pp) > 2 and pp[2] == GPU for pp in x[2]) for x in subterms(d))
+                    if not onf:
+                        continue
+                    if d[0] == 'call' and d[2].endswith('::is_some'):
+                        has = truth
+                    elif d[0] == 'call' and d[2].endswith('::is_none'):
+                        has = not truth
+                    elif d[0] == 'discr':
+                        has = truth
+                seq = [helpers[e[2]] for e in p.effects if e[0] == 'call' and e[2] in helpers]
+                tore = 'resource_detach_backing' in seq and 'resource_attach_backing' in seq and seq.index('resource_detach_backing') < len(seq) - 1 - seq[::-1].index('resource_attach_backing')
+                if has is True and not tore:
+                    wrongp = 'a path on which a backing region is stored attaches a new one without detaching the old'
+                if has is False and 'resource_detach_backing' in seq:
+                    wrongp = wrongp or 'the teardown commands are sent on the path where no backing region is stored'
+            R.check(wrongp is None, 'Z3', '%s:teardown-iff-backing-exists' % b['name'], fn_site(F, b['id']), 'old backing detached exactly when one exists',
+                    '%s: %s' % (b['name'], wrongp))
         # ... and an image of any other length than the cursor size is refused: attach is reached only on the equal edge of the
         # length comparison
         if img and okpaths is not None:
@@ -527,6 +556,16 @@ def z12_mount_tag(F, R):
                 st.extend(sg.nodes[x].pred)
             in_loop |= body
         ok = bool(len_reads) and bool(byte_reads) and bool(pushed) and all(c.id in in_loop for c in pushed) and all(c.id in in_loop for c in byte_reads)
+        # a zero length is the refused case: the byte reads are guarded by the *non-zero* edge of the length test
+        for r_ in byte_reads:
+            for swid, vals, succ in sg.guards_of(r_.id):
+                d = S.operand(swid, sg.nodes[swid].d['discr'])
+                if d[0] == 'bin' and d[1] in ('Eq', 'Ne') and any(x[0] == 'call' and x[1] in [l.id for l in len_reads] for x in subterms(d)) and 0 in (fold_const(d[2]), fold_const(d[3])):
+                    truth = any(v_ not in (0, None) for v_ in vals) or (None in vals and 0 not in vals)
+                    if 0 in vals and len([v_ for v_ in vals if v_ is not None]) == 1:
+                        truth = False
+                    if (d[1] == 'Eq') == truth:
+                        ok = False
         R.check(ok, 'Z12', '%s:mount-tag' % b['id'], fn_site(F, b['id']), 'length at offset 0; every byte read at 2 + i is appended inside the loop',
                 'mount tag: length read at offset 0=%s, byte reads at 2+i=%d, bytes appended=%d (in the loop=%s): the returned tag is not what the device reported' % (
                     bool(len_reads), len(byte_reads), len(pushed), all(c.id in in_loop for c in pushed)))
@@ -808,6 +847,42 @@ def z13_stream_ids(F, R):
         R.check(not bad, 'Z13', '%s:ids-are-table-positions' % b['id'], fn_site(F, b['id']), 'enumerate is applied to the stream table itself',
                 '%s numbers the elements of %s: the returned ids are positions in a filtered view, not the device\'s stream ids' % (b['name'], ((bad[0] if bad else None) or '?')[:80]))
     R.count('stream_id_fns', n)
+
+
+def z14_gpu_serialise(F, R, M, roles):
+    """The generic GPU request helpers put the request they were given on the queue: the buffer submitted as readable is a
+    field of the driver into which the request parameter was serialised (write_to_prefix) beforehand, and the value
+    returned comes from the buffer that was submitted as writable."""
+    n = 0
+    for b in gpu_helpers(F):
+        sg = supergraph(F, b['id'], opaque=lambda t, bb: bb['id'] in roles, tag='z14')
+        S = sg.sym
+        subs = [c for c in sg.calls(lambda d: roles.get(d.get('fn')) == 'add_notify_wait_pop')]
+        if len(subs) != 1:
+            continue
+        n += 1
+        c = subs[0]
+        ins = array_elems(S, S.operand(c.id, c.d['args'][1]))
+        def fields_of(t):
+            out = set()
+            for x in deep_subterms(S, t):
+                if x[0] == 'loc':
+                    for pp in x[2]:
+                        if pp[0] == 'f' and len(pp) > 2 and pp[2] == GPU:
+                            out.add(pp[1])
+            return out
+        send_f = fields_of(ins[0]) if ins else set()
+        ser = []
+        for w in sg.calls(lambda d: d.get('fn', '').endswith('::write_to_prefix') or d.get('method') == 'write_to_prefix' or d.get('fn', '').endswith('::write_to')):
+            src = S.operand(w.id, w.d['args'][0])
+            dst = S.operand(w.id, w.d['args'][1])
+            from_req = derives_from(src, lambda x: x == ('param', 2)) or any(x[0] == 'loc' and x[1] == ('local', 0, 2) for x in subterms(src))
+            if from_req and fields_of(dst) & send_f:
+                ser.append(w.id)
+        ok = bool(send_f) and bool(ser) and sg.always_before(ser, c.id)
+        R.check(ok, 'Z14', '%s:request-serialised' % b['id'], site(sg, c), 'the request parameter is written into the submitted buffer `%s` before submission' % sorted(send_f),
+                '%s submits buffer %s without first serialising its request parameter into it: the device receives whatever the buffer held before' % (b['name'], sorted(send_f)))
+    R.count('gpu_request_helpers', n)
 
 
 def z6_edid(F, R):
